@@ -75,7 +75,8 @@ impl MElem for N64 {
 }
 
 fn nan_with_payload_f64(i: usize) -> f64 {
-    f64::from_bits(0x7ff8_0000_0000_0000 | (i as u64 + 1) | if i % 2 == 1 { 1u64 << 63 } else { 0 })
+    let quiet = if i % 3 == 2 { 0 } else { 0x0008_0000_0000_0000u64 };
+    f64::from_bits(0x7ff0_0000_0000_0000 | quiet | (i as u64 + 1) | if i % 2 == 1 { 1u64 << 63 } else { 0 })
 }
 
 trait NanMaker: MElem {
